@@ -216,7 +216,10 @@ type cfg struct {
 	// Overflowed (async only): the logger runs with the Discard policy and its buffer has overflowed
 	// before the judged events are logged (which fit into the buffer: none of them is discarded)
 	Overflowed bool
-	Others     int // competing loggers
+	// AsRoot (sync/async): the logger under test is the configured root logger (it lists no tags; the
+	// test tag is served by it because nobody lists it) - a root logger is a logger like any other
+	AsRoot bool
+	Others int // competing loggers
 	Root     bool
 	Dir      string
 }
@@ -291,6 +294,9 @@ func genCfg(t *rapid.T) cfg {
 	if c.Kind == "async" {
 		c.Overflowed = rapid.IntRange(0, 2).Draw(t, "overflowed") == 0
 	}
+	if (c.Kind == "sync" || c.Kind == "async") && rapid.IntRange(0, 4).Draw(t, "asRoot") == 0 {
+		c.AsRoot, c.Root, c.Others = true, false, 2
+	}
 	return c
 }
 
@@ -315,7 +321,11 @@ func (c cfg) toMap(t *rapid.T) map[string]string {
 		"appender.sink.type": "Rec", // at least one appender must exist
 	}
 	p := "logger.t."
-	m[p+"tags"] = "_c01_a"
+	if c.AsRoot {
+		p = "logger.root."
+	} else {
+		m[p+"tags"] = "_c01_a"
+	}
 	m[p+"level"] = c.Logger.render(t, "lg")
 	if c.Layout != "" {
 		m[p+"layout.type"] = c.Layout
@@ -383,7 +393,7 @@ func (c cfg) desc() string {
 	for i, r := range c.Refs {
 		refs = append(refs, fmt.Sprintf("#%d@%d->r%d:%s", i, c.Order[i], c.target(i), r))
 	}
-	return fmt.Sprintf("kind=%s layout=%q async=%v separate=%v logger=%s refs=[%s] others=%d root=%v conc=%d overflowed=%v", c.Kind, c.Layout, c.Async, c.Separate, c.Logger, strings.Join(refs, " "), c.Others, c.Root, c.Conc, c.Overflowed)
+	return fmt.Sprintf("kind=%s layout=%q async=%v separate=%v logger=%s refs=[%s] others=%d root=%v conc=%d overflowed=%v asRoot=%v", c.Kind, c.Layout, c.Async, c.Separate, c.Logger, strings.Join(refs, " "), c.Others, c.Root, c.Conc, c.Overflowed, c.AsRoot)
 }
 
 // ---------------------------------------------------------------- events
@@ -894,6 +904,13 @@ func TestC01_Generated(t *testing.T) {
 			sort.Strings(lv)
 			vk.NonTrivial(c.Kind + c.Layout + c.Logger.String() + strings.Join(norm, ",") + strings.Join(lv, ","))
 		}
+		if c.AsRoot {
+			for i := range events {
+				if events[i].Tag == "r" {
+					events[i].Tag = "a" // both are served by root, which is the logger under test here
+				}
+			}
+		}
 		if err := runCase(t, c, m, events); err != nil {
 			if strings.Contains(err.Error(), "VERIF-INCONCLUSIVE") {
 				t.Fatalf("%v (config: %s)", err, c.desc())
@@ -945,6 +962,13 @@ func TestC01_Concurrent(t *testing.T) {
 		vk.Eval()
 		vk.Class("concurrent:kind:" + c.Kind)
 		vk.NonTrivial(fmt.Sprintf("concurrent/%s/%d/%d", c.desc(), c.Conc, reps))
+		if c.AsRoot {
+			for i := range events {
+				if events[i].Tag == "r" {
+					events[i].Tag = "a" // both are served by root, which is the logger under test here
+				}
+			}
+		}
 		if err := runCase(t, c, m, events); err != nil {
 			if strings.Contains(err.Error(), "VERIF-INCONCLUSIVE") {
 				t.Fatalf("%v (config: %s)", err, c.desc())
